@@ -31,6 +31,9 @@ type Obligation struct {
 	Res     SolveResult
 	QuerySz int
 	Cross   string
+	slice   bool
+	noQuant bool
+	Diag    string
 }
 
 type Config struct {
@@ -71,6 +74,7 @@ type Exec struct {
 	inputs    []*Term
 	curEffFn  *ssa.Function
 	freshRefs map[int]bool
+	amap      *assertMap
 }
 
 type deferEntry struct {
@@ -93,6 +97,7 @@ type Frame struct {
 	unit     *FuncUnit
 	defers   []deferEntry
 	strict   bool
+	lossless bool
 	lpkg     *LPkg
 	oldVals  []Val // values of `old` definitions (unit frames)
 	args     []Val
@@ -105,6 +110,20 @@ func NewExec(ld *Loaded, cfg *Config) *Exec {
 		leafCache: map[string][]LeafInfo{}, classSort: map[string]*Sort{}, refAx: map[int]bool{},
 		originID: map[string]int{}, typeIDs: map[string]int{}, oblCount: map[string]int{}, notes: map[string]int{},
 		assumed: map[string]bool{}, strConst: map[string]*Term{}, fnInfos: map[*ssa.Function]*fnInfo{}, effCache: map[*ssa.Function]*Effects{}, freshRefs: map[int]bool{}}
+	x.tb.known = func(a, b *Term) bool {
+		// two different freshly allocated references never coincide; a fresh reference is not nil
+		if a == b {
+			return false
+		}
+		fa, fb := x.freshRefs[a.ID], x.freshRefs[b.ID]
+		if fa && fb {
+			return true
+		}
+		if (fa && b.Op == "bv" && b.Val.Sign() == 0) || (fb && a.Op == "bv" && a.Val.Sign() == 0) {
+			return true
+		}
+		return false
+	}
 	return x
 }
 
@@ -124,6 +143,9 @@ func (x *Exec) newFrame(fn *ssa.Function, parent *Frame) *Frame {
 	}
 	if u, ok := x.ld.ByFn[fn]; ok && u.C.Strict {
 		fr.strict = true
+	}
+	if u, ok := x.ld.ByFn[fn]; ok && u.C.Lossless {
+		fr.lossless = true
 	}
 	return fr
 }
@@ -260,7 +282,7 @@ func (x *Exec) stringConst(t types.Type, s string) Val {
 			}
 		}
 	}
-	return Val{T: t, L: []*Term{arr, x.tb.BVInt(0, 64), x.tb.BVInt(int64(len(s)), 64)}}
+	return Val{T: t, L: []*Term{arr, x.tb.BVInt(0, 64), x.tb.BVInt(int64(len(s)), 64)}, Str: &s}
 }
 
 func (x *Exec) strByte(arr, idx *Term) *Term {
@@ -282,7 +304,13 @@ func (x *Exec) val(fr *Frame, v ssa.Value) Val {
 			x.addRefAxioms("glob:"+c.String(), r, nil)
 			return Val{T: c.Type(), L: []*Term{r}, Ptr: &PtrInfo{Kind: PObj, T: pt}}
 		}
-		return Val{T: c.Type(), L: []*Term{x.tb.UF("globaddr:"+c.String(), x.tb.BV(64))}, Ptr: &PtrInfo{Kind: PLoc, T: pt, Loc: Loc{Class: "v:" + c.String()}}}
+		cls := "v:" + c.String()
+		if c.Pkg != nil && !strings.HasPrefix(c.Pkg.Pkg.Path(), modulePath) {
+			// package-level variables of other modules (io.EOF, ...) are treated as constants
+			cls = "c:" + c.String()
+			x.assumed["package-level variables of other modules (io.EOF, io.ErrUnexpectedEOF, ...) are never reassigned"] = true
+		}
+		return Val{T: c.Type(), L: []*Term{x.tb.UF("globaddr:"+c.String(), x.tb.BV(64))}, Ptr: &PtrInfo{Kind: PLoc, T: pt, Loc: Loc{Class: cls}}}
 	case *ssa.Builtin:
 		return Val{T: c.Type(), L: []*Term{x.tb.BVInt(1, 64)}}
 	}
@@ -681,9 +709,20 @@ func (x *Exec) unop(fr *Frame, st *State, i *ssa.UnOp) Val {
 func (x *Exec) convert(fr *Frame, st *State, i *ssa.Convert) Val {
 	v := x.val(fr, i.X)
 	from, to := v.T, i.Type()
-	if ts, _, ok := x.intSort(to); ok {
+	if ts, tsigned, ok := x.intSort(to); ok {
 		if _, fs, ok2 := x.intSort(from); ok2 {
-			return Val{T: to, L: []*Term{x.convertInt(v.L[0], fs, ts.W)}}
+			r := x.convertInt(v.L[0], fs, ts.W)
+			if fr.lossless && !fr.spec && !isM(to) && (ts.W < v.L[0].Sort.W || fs != tsigned) {
+				W := v.L[0].Sort.W
+				if ts.W > W {
+					W = ts.W
+				}
+				W++
+				a := x.convertInt(v.L[0], fs, W)
+				b := x.convertInt(r, tsigned, W)
+				x.addObl(fr, st, "conv", i, "", x.tb.Eq(a, b))
+			}
+			return Val{T: to, L: []*Term{r}}
 		}
 		if b, ok := from.Underlying().(*types.Basic); ok && b.Kind() == types.UnsafePointer {
 			return Val{T: to, L: []*Term{v.L[0]}}
@@ -828,7 +867,7 @@ func (x *Exec) makeSlice(fr *Frame, st *State, i *ssa.MakeSlice) Val {
 	l64 := x.convertInt(ln.L[0], ls, 64)
 	c64 := x.convertInt(cp.L[0], cs, 64)
 	z := tb.BVInt(0, 64)
-	x.addObl(fr, st, "makeslice", i, "", tb.And(tb.SLe(z, l64), tb.SLe(l64, c64), tb.SLe(c64, tb.BVInt(1<<47, 64))))
+	x.addObl(fr, st, "makeslice", i, "", tb.And(tb.SLe(z, l64), tb.SLe(l64, c64), tb.SLe(c64, tb.BVInt(1<<60, 64))))
 	arr := x.freshRef(st, "mk")
 	et := i.Type().Underlying().(*types.Slice).Elem()
 	x.zeroFillArr(st, et, arr)
